@@ -50,6 +50,7 @@ type Fragment struct {
 	Rule        string           `json:"rule"`
 	Notes       []string         `json:"notes"`
 	Complete    bool             `json:"complete"`
+	FullyExh    bool             `json:"fully_exhaustive"`
 }
 
 // Rec is the recorder of one shard.
@@ -205,6 +206,14 @@ func (r *Rec) WantSample(class string) bool {
 func (r *Rec) Exhaustive(what string) {
 	r.mu.Lock()
 	r.frag.Exhaustive = append(r.frag.Exhaustive, what)
+	r.mu.Unlock()
+}
+
+// FullyExhaustive states that everything this check explores is a complete enumeration of a finite
+// space (no sampled part); only then the evidence file says exhaustive: true.
+func (r *Rec) FullyExhaustive() {
+	r.mu.Lock()
+	r.frag.FullyExh = true
 	r.mu.Unlock()
 }
 
